@@ -60,6 +60,12 @@ func (e *enc) nodeCall(x *ssa.Call, callee *ssa.Function, args []Term) {
 		return
 	}
 	e.nodeUF(x, "nf_"+clean(callee.Pkg.Pkg.Name())+"_"+name, c, args, callee.Signature)
+	if strings.HasPrefix(name, "New") && callee.Signature.Results().Len() == 1 {
+		// constructors of the runtime / generated code return a fresh, non-nil object
+		if t, ok := e.fr.val[x]; ok && e.so.of(callee.Signature.Results().At(0).Type()) == "Int" {
+			e.assume(fmt.Sprintf("(not (= %s 0))", t))
+		}
+	}
 }
 
 func (e *enc) nodeUF(x *ssa.Call, fname string, c *ssa.CallCommon, args []Term, sig *types.Signature) {
@@ -80,9 +86,19 @@ func (e *enc) nodeUF(x *ssa.Call, fname string, c *ssa.CallCommon, args []Term, 
 		for _, cnd := range e.wfConds(t, rty, 1) {
 			e.assume(cnd)
 		}
+		e.nodeListFacts(t, rty)
 		ts = append(ts, t)
 	}
 	e.setResult(x, sig, ts)
+}
+
+// nodeListFacts: lists of nodes/tokens returned by the parser runtime contain no nil element (assumed runtime contract)
+func (e *enc) nodeListFacts(t Term, rty types.Type) {
+	if st, ok := rty.Underlying().(*types.Slice); ok && isNodeType(st.Elem()) && e.so.of(st.Elem()) == "Int" {
+		s := e.so.of(rty)
+		e.assumps["lists returned by the ANTLR runtime / generated parser (GetAllTokens, GetChildren, AllX()) contain no nil element"] = true
+		e.assume(fmt.Sprintf("(forall ((i Int)) (! (=> (and (<= 0 i) (< i (len_%s %s))) (not (= (select (arr_%s %s) i) 0))) :pattern ((select (arr_%s %s) i))))", s, t, s, t, s, t))
+	}
 }
 
 // nodeInvoke: interface method call on a node-typed receiver
@@ -110,6 +126,7 @@ func (e *enc) nodeInvoke(x *ssa.Call, recv Term) {
 		for _, cnd := range e.wfConds(t, rty, 1) {
 			e.assume(cnd)
 		}
+		e.nodeListFacts(t, rty)
 		ts = append(ts, t)
 	}
 	e.setResult(x, sig, ts)
